@@ -52,6 +52,27 @@ def bootstrap(reexec=True):
 
 
 _lib = None
+SCRATCH = None
+
+
+def _scratch_fs():
+    """A private, empty home / temp / cache directory for this process, wiped
+    by seams.fresh_library(): a change under test that caches on disk
+    (~/.cache, tempfile.gettempdir()) must not carry state from the simulated
+    history into the history-free reference."""
+    global SCRATCH
+    import atexit
+    import shutil
+    import tempfile
+    out = os.path.join(VERIF, "out")
+    os.makedirs(out, exist_ok=True)
+    SCRATCH = tempfile.mkdtemp(prefix="fs-%d-" % os.getpid(), dir=out)
+    for k in ("HOME", "TMPDIR", "TEMP", "TMP", "XDG_CACHE_HOME", "XDG_DATA_HOME",
+              "XDG_CONFIG_HOME", "PYTORCH_WAVELETS_CACHE"):
+        os.environ[k] = SCRATCH
+    tempfile.tempdir = SCRATCH
+    atexit.register(shutil.rmtree, SCRATCH, True)
+
 
 
 def lib():
@@ -62,6 +83,7 @@ def lib():
         return _lib
     import warnings
     warnings.filterwarnings("ignore")
+    _scratch_fs()
     import torch
     torch.set_num_threads(1)
     import pytorch_wavelets as pw
